@@ -126,7 +126,7 @@ func c04(c *core.Ctx) {
 			c.Violation("C04.R2", key, fpos(c, h), fmt.Sprintf("%s never builds its acknowledgement with %s", a.handler, a.method))
 			continue
 		}
-		prm := h.Params[1] // receiver is Params[0]
+		prm := paramOf(h, 1) // receiver is Params[0]
 		for i, s := range cs {
 			k := fmt.Sprintf("%s#%d", key, i)
 			recv := ssax.Receiver(s.Instr)
@@ -152,7 +152,7 @@ func c04(c *core.Ctx) {
 		sts := ssax.FieldStores(f, false, func(fa *ssa.FieldAddr) bool { return ssax.FieldOf(fa).Name() == "PacketID" })
 		ok := len(sts) > 0
 		for _, st := range sts {
-			if !fl.OnlyFrom(st.Val, f.Params[0].Name()+".PacketID") {
+			if !fl.OnlyFrom(st.Val, paramOf(f, 0).Name()+".PacketID") {
 				ok = false
 			}
 		}
@@ -168,7 +168,7 @@ func c04(c *core.Ctx) {
 	} else {
 		errv := ssax.ResultValue(rmv[0].Instr, 0)
 		args := ssax.Args(rmv[0].Instr)
-		c.Check(len(args) == 1 && fl.OnlyFrom(args[0], rh.Params[1].Name()+".PacketID"), "C04.R3", "pubrelHandler|Remove-arg", ipos(c, rmv[0].Instr), "removes the id of the PUBREL", "unackStore.Remove is not given the packet identifier of the PUBREL being handled")
+		c.Check(len(args) == 1 && fl.OnlyFrom(args[0], paramOf(rh, 1).Name()+".PacketID"), "C04.R3", "pubrelHandler|Remove-arg", ipos(c, rmv[0].Instr), "removes the id of the PUBREL", "unackStore.Remove is not given the packet identifier of the PUBREL being handled")
 		if errv == nil {
 			c.Violation("C04.R3", "pubrelHandler|Remove-err", ipos(c, rmv[0].Instr), "the error of unackStore.Remove is discarded: PUBCOMP is sent although the id may still be recorded")
 		} else {
@@ -225,7 +225,7 @@ func c04(c *core.Ctx) {
 	for _, pkg := range []string{"persistence/unack/mem", "persistence/unack/redis"} {
 		f := p.Func(pkg, "(*Store).Init")
 		c.Analysed(fname(f))
-		r := ssax.Analyze(f, ssax.ReachOpts{Pins: map[ssa.Value]ssax.AV{f.Params[1]: ssax.AVFalse}})
+		r := ssax.Analyze(f, ssax.ReachOpts{Pins: map[ssa.Value]ssax.AV{paramOf(f, 1): ssax.AVFalse}})
 		ok := true
 		var where ssa.Instruction
 		ssax.Instrs(f, false, func(_ *ssa.Function, in ssa.Instruction) {
@@ -263,7 +263,7 @@ func c04(c *core.Ctx) {
 	okR5 := false
 	for _, x := range rm2 {
 		args := ssax.Args(x.Instr)
-		if len(args) == 1 && fl.OnlyFrom(args[0], ph.Params[1].Name()+".PacketID") {
+		if len(args) == 1 && fl.OnlyFrom(args[0], paramOf(ph, 1).Name()+".PacketID") {
 			for _, g := range ssax.Guards(x.Instr) {
 				if bo, ok := g.Cond.(*ssa.BinOp); ok {
 					op := cmpUnder(bo, g.Branch)
